@@ -156,7 +156,8 @@ func c18Build(c *c18Case) (d *Dir, aliases []string, valid bool, why string) {
 		}
 	}
 	for i := 0; i < c.N; i++ {
-		cfg := &refcfg.CertCfg{Path: c18Path(c, i), Alias: explicit[i], Subject: fmt.Sprintf("CN=E%d", i), KeyAlg: "P-224"}
+		// every entity pins the same serialNumber: a serial is no alias and no reason for a collision
+		cfg := &refcfg.CertCfg{Path: c18Path(c, i), Alias: explicit[i], Subject: fmt.Sprintf("CN=E%d", i), KeyAlg: "P-224", Serial: refcfg.I64(7)}
 		switch {
 		case c.Issuer[i] == c.N:
 			cfg.Issuer = "nobody"
